@@ -6,15 +6,21 @@ ROOT = os.path.dirname(os.path.dirname(os.path.abspath(__file__)))
 
 # id -> (built?, technique, level text, level note, design ref)
 P = {
-    'C01': (False, '', '', '', '7/C01'),
-    'C02': (False, '', '', '', '7/C02'),
+    'C01': (True, 'deviation-bounded exhaustive enumeration of derivations of a reference grammar (E-DERIV, d<=2 quick / d<=3 thorough) with soft-keyword and identifier post-passes, real parser in three modes vs the CPython 3.11 reference tree',
+            'Every derivation of G_ref (358 alternatives) with at most d non-default alternatives is rendered, validated by CPython and parsed by the real parser; trees are compared node by node through a generic Debug-derived channel. Cost 2 covers every ordered pair (parent construct, child construct, position).',
+            'CPython 3.11 ast.parse; derive(Debug); the canonicalisers in vp/astcmp.py; PEP 695 forms are not compared with a reference tree yet', '7/C01'),
+    'C02': (True, 'the same deviation-bounded exhaustive enumeration x 6 layouts (LF/CRLF/CR/BOM/tab/multi-byte), all-nodes-with-ranges build; every node checked structurally and against CPython positions converted to byte offsets',
+            'Every node of every tree of every CPython-valid sentence inside the bound under every layout is checked for the structural clauses and for range equality with the reference extent.',
+            'CPython 3.11 positions; pieces of an f-string are exempt from extent equality (3.11 gives each piece the extent of the whole literal)', '7/C02'),
     'C03': (False, '', '', '', '7/C03'),
     'C04': (False, '', '', '', '7/C04'),
     'C05': (False, '', '', '', '7/C05'),
     'C06': (False, '', '', '', '7/C06'),
     'C07': (False, '', '', '', '7/C07'),
     'C08': (False, '', '', '', '7/C08'),
-    'C09': (False, '', '', '', '7/C09'),
+    'C09': (True, 'exhaustive enumeration of G_ref sentences (valid and invalid) and of all short character strings, each through every entry point at 6 start offsets, against the offset-0 result shifted/projected in the harness',
+            'For every text inside the bound, every entry point (parse*, lex*, Parse::* for Mod/Suite/Stmt/Expr/Identifier/Constant and all 55 generated node types, deprecated helpers) in three modes at offsets {0,1,7,400,2^31,2^32-2-len} must equal the shifted / projected offset-0 result.',
+            'reference = parse(text, mode) at offset 0 (self-relation, no external oracle)', '7/C09'),
     'C10': (False, '', '', '', '7/C10'),
     'C11': (False, '', '', '', '7/C11'),
     'C12': (False, '', '', '', '7/C12'),
